@@ -28,6 +28,11 @@ def w_classes(tier: str, max_prefix: int = 3) -> List[dw.W]:
         for p in pats:
             for st in stats_choices:
                 res.append(dw.W(pre, p, "ab", False, st))
+    # marked classes ({x,y,z}·C, three-to-one rule with a custom constructor)
+    for pre in ("", "a", "ab"):
+        for p in pats:
+            for st in [(), ("a",), ("a", "ab")]:
+                res.append(dw.W(pre, p, "ab", False, st, True))
     if tier != "quick":
         for pre in ("", "c", "ac"):
             for p in [("ab",), ("b", "ca"), ("cc", "ab")]:
@@ -47,7 +52,7 @@ def w_strategies(tier: str) -> List[Any]:
     strats.append(dw.RemoveFront(norm=True, swap=True))
     strats.append(dw.Expand(k=2))
     strats.append(dw.Expand(k=2, norm=True, drop_empty=True))
-    strats += [dw.RemovePatterns(), dw.NormaliseStats(), dw.SwapLetters(), dw.AddImpliedPattern()]
+    strats += [dw.RemovePatterns(), dw.NormaliseStats(), dw.SwapLetters(), dw.AddImpliedPattern(), dw.Unmark()]
     return strats
 
 
